@@ -38,22 +38,23 @@ def expect_hist(ops, unit=UNIT):
     return tuple(out)
 
 
-def replay(mods, scn, unit=UNIT):
-    """Returns {"mismatch": None | dict, "ticks": n, "calls": n}."""
+def replay(mods, scn, unit=UNIT, offset=0.0):
+    """Returns {"mismatch": None | dict, "ticks": n, "calls": n}.  offset: all times are shifted by this many seconds (an exactly
+    representable shift: the call sequence must not depend on where on the time axis the history happens)."""
     runtime = mods["runtime"]
     ekf = RecFilter(1 if scn["hasControl"] else 0, scn["max"] * unit)
-    mf = runtime.ManagedFilter(ekf, start_time=scn["t0"] * unit, state=(), covariance="P0")
+    mf = runtime.ManagedFilter(ekf, start_time=scn["t0"] * unit + offset, state=(), covariance="P0")
     n = 0
     for i, tk in enumerate(scn["ticks"]):
         n += 1
-        readings = [runtime.StampedReading(r["t"] * unit, r["key"], id=r["id"]) for r in tk["rs"]]
+        readings = [runtime.StampedReading(r["t"] * unit + offset, r["key"], id=r["id"]) for r in tk["rs"]]
         control = (i + 1) if tk["ctl"] else None
         held_before = (mf.current_time, mf.state)
         try:
             kw = {}
             if readings or i % 2 == 0:      # readings=None and readings=[] must behave alike
                 kw["readings"] = readings
-            ret = mf.tick(tk["out"] * unit, control=control, **kw)
+            ret = mf.tick(tk["out"] * unit + offset, control=control, **kw)
         except TypeError as e:
             if tk["refused"]:
                 if (mf.current_time, mf.state) != held_before:
@@ -68,7 +69,7 @@ def replay(mods, scn, unit=UNIT):
         if tuple(ret.state) != exp_ret:
             return {"mismatch": {"tick": i, "what": "returned-call-sequence", "expected": exp_ret, "observed": tuple(ret.state)}, "ticks": n, "calls": ekf.calls}
         exp_held = expect_hist(tk["held_hist"], unit)
-        if tuple(mf.state) != exp_held or mf.current_time != tk["held_t"] * unit:
-            return {"mismatch": {"tick": i, "what": "held-estimate", "expected": [tk["held_t"] * unit, exp_held],
+        if tuple(mf.state) != exp_held or mf.current_time != tk["held_t"] * unit + offset:
+            return {"mismatch": {"tick": i, "what": "held-estimate", "expected": [tk["held_t"] * unit + offset, exp_held],
                                  "observed": [mf.current_time, tuple(mf.state)]}, "ticks": n, "calls": ekf.calls}
     return {"mismatch": None, "ticks": n, "calls": ekf.calls}
